@@ -1014,7 +1014,31 @@ class Taint:
     def desc(self, b, ops):
         return [self.describe(b, o) for o in ops]
 
+    def _stored_to_self_field(self, b, l):
+        """role form: a local whose value is what one store puts into a field of self (`let n = f(..); self.count = n;`) is that field"""
+        hit = []
+        same = {l}          # l and the temporaries that are plain copies of it
+        for bi in b.live:
+            for st in b.blocks[bi]['stmts']:
+                if st['k'] == 'assign' and not st['pl']['p'] and st['rv']['k'] == 'use' and st['rv']['op']['k'] in ('copy', 'move') and not st['rv']['op']['pl']['p'] \
+                        and st['rv']['op']['pl']['l'] == l and len(b.defs().get(st['pl']['l'], [])) == 1 and not b.locals[st['pl']['l']].get('user'):
+                    same.add(st['pl']['l'])
+        for bi in b.live:
+            for st in b.blocks[bi]['stmts']:
+                if st['k'] == 'assign' and st['pl']['p'] and st['pl']['p'][-1]['k'] == 'field' and st['rv']['k'] == 'use' and st['rv']['op']['k'] in ('copy', 'move') \
+                        and not st['rv']['op']['pl']['p'] and st['rv']['op']['pl']['l'] in same:
+                    base = b.base_of_place(st['pl'])
+                    if base and self.local_desc(b, base[0], 9) == 'self':
+                        hit.append(base)
+        if len(hit) == 1 and len(b.defs().get(l, [])) == 1:
+            return 'self' + ''.join('.' + self.field_tag(x[0], x[1]) for x in hit[0][1])
+        return None
+
     def local_desc(self, b, l, depth=0):
+        if getattr(self, '_roles', False) and depth < 9 and l > b.arg_count:
+            al = self._stored_to_self_field(b, l)
+            if al:
+                return al
         if 1 <= l <= b.arg_count:
             if b.locals[l]['name'] == 'self':
                 return 'self'
@@ -1063,7 +1087,8 @@ class Taint:
                 s = cap
                 fields = fields[1:]
         if getattr(self, '_roles', False):
-            tags = [self.field_tag(x[0], x[1]) for x in fields]
+            # (the payload hop of an Option / Result - `(x as Some).0` - is how the value is reached, not part of what it is)
+            tags = [self.field_tag(x[0], x[1]) for x in fields if x[0] not in ('core::option::Option', 'core::result::Result')]
             # a hop through a private struct of the crate that merely groups fields (`self.progress.chunk_index`) is not part of
             # what identifies the value
             local_names = {a.split('::')[-1] for a in self.f.adts}
@@ -1071,7 +1096,7 @@ class Taint:
             s += ''.join('.' + t_ for t_ in tags)
         else:
             s += ''.join('.' + str(x[1]) for x in fields)
-        if any(p['k'] in ('index', 'constindex', 'subslice') for p in pl['p']):
+        if any(p['k'] in ('index', 'constindex', 'subslice') for p in pl['p']) and not getattr(self, '_roles', False):
             s += '[]'
         return s
 
@@ -1106,6 +1131,9 @@ class Taint:
             name = callee_q(d[1]).split('::')[-1]
             if name in ('deref', 'deref_mut', 'as_ref', 'as_mut', 'get_mut', 'get_ref', 'borrow', 'borrow_mut', 'new_unchecked', 'into_ref') and inner:
                 return inner            # the same object seen through a smart pointer / Pin
+            if getattr(self, '_roles', False) and name in ('first', 'last', 'get', 'first_mut', 'last_mut') and inner and \
+                    b.lty(d[1]['dest']['l']).get('adt') == 'core::option::Option':
+                return inner            # role form: an element of the list, however it is reached (`list[0]`, `list.first()`)
             return name + '(' + inner + ')'
         if d[0] != 'assign':
             return ''
